@@ -98,6 +98,9 @@ func runC15(c *CaseCtx) (res CaseResult) {
 	if c.Idx%27 == 11 {
 		return runC15Partial(c, r)
 	}
+	if c.Idx%27 == 20 {
+		return runC15FromFuncSets(c, r)
+	}
 	det := map[string]interface{}{}
 	defer func() {
 		if p := recover(); p != nil {
